@@ -56,11 +56,42 @@ def loop_table(res):
     return out
 
 
+def nest_skeletons(depth):
+    """every nesting of statement containers up to `depth` around one assignment: while / do-while / counted for /
+    non-counted for / if / if-else / block / label / switch-case, each with a braced and (where C allows) a
+    brace-less body -- bounded-exhaustive, not sampled"""
+    leaf = 'x = x + y;'
+    level = [leaf]
+    out = []
+    for d in range(depth):
+        nxt = []
+        for b in level:
+            for body in (b, '{ %s }' % b):
+                nxt.append(f'while (x < n) {body}')
+                nxt.append(f'do {body} while (x < n);')
+                nxt.append(f'for (i{d} = 0; i{d} < n; i{d}++) {body}')
+                nxt.append(f'for (;;) {body}')
+                nxt.append(f'if (x < y) {body}')
+                nxt.append(f'if (x < y) y = x; else {body}')
+                nxt.append(f'L{d}: {body}')
+            nxt.append('{ y = y; %s }' % b)
+            nxt.append('switch (x) { case 1: %s break; default: %s }' % (b, b))
+        level = nxt
+        out += nxt
+    return ['int f(int x,int y,int n){ int i0; int i1; int i2; %s }' % b for b in out]
+
+
 def run(ctx):
     from pymwp import FindLoops, LoopAnalysis, Analysis, Variables, Result, Parser as pr
     from pymwp.file_io import loc
     rng = ctx.rng
     files = list(EXTRA)
+    sk = nest_skeletons(3 if ctx.tier == 'thorough' else 2)
+    if ctx.tier != 'thorough':
+        files += sk
+    else:
+        files += sk[:272] + sk[272::3]       # depth <= 2 in full, every third skeleton of depth 3
+    ctx.extra['nest_skeletons'] = len(files) - len(EXTRA)
     for i in range(ctx.budget(60, 2000)):
         parts = []
         for k in range(rng.choice([1, 1, 2, 3])):
